@@ -124,7 +124,9 @@ def mutations(body, lists, fi=None, alias=None, ci=None, depth=1):
                             out[l_].append(("unknown", f"{n.func.attr} through `{n.func.value.id}`, a reference that may no longer be (or may not be) self.{l_}", n))
                         continue
                 if tl is not None and n.func.attr in MUTATORS:
-                    det = n.func.attr + "(" + (",".join(astq.src(a) for a in n.args) if n.func.attr != "append" else "") + ")"
+                    # what keeps the lists in step is WHERE an entry goes in / comes out, not which value: insert(pos, v) is insert(pos)
+                    pos_args = [] if n.func.attr == "append" else (n.args[:1] if n.func.attr == "insert" else n.args)
+                    det = n.func.attr + "(" + ",".join(astq.src(a) for a in pos_args) + ")"
                     out[tl].append((n.func.attr, det, n))
                 # own helper given a tracked list
                 if ci is not None and depth > 0 and self_attr(n.func) and n.func.attr in ci.methods and n.func.attr.startswith("_"):
@@ -314,6 +316,7 @@ def check(prog, run):
     run.ob("R-types", ci.qual, "frequency list and partner lists are list-valued", {MAIN, "pole_ind", "freq_ind"} <= listattrs,
            f"{sorted(listattrs)}", witness=str(sorted(listattrs)), file=f, node=ci.node)
     pick(prog, run, ci, f)
+    click_position(prog, run, ci, f)
     # "the modes extracted afterwards are those poles": per-mode order lists are resolved to the nearest retained pole (rules of C11)
     from . import C11
     C11.declare_extraction_rules(run, first_order=False, handover_min=10)
@@ -328,13 +331,20 @@ def pick(prog, run, ci, f):
     m = astq.PrunedFn(m, {"plot": "SSI", "self.plot": "SSI"})
     apps = {}
     for n in ast.walk(m.node):
-        if isinstance(n, ast.Call) and isinstance(n.func, ast.Attribute) and n.func.attr == "append" and self_attr(n.func.value):
-            apps[n.func.value.attr] = n
+        if isinstance(n, ast.Call) and isinstance(n.func, ast.Attribute) and n.func.attr in ("append", "insert") and len(n.args) == (1 if n.func.attr == "append" else 2):
+            recv = n.func.value
+            if isinstance(recv, ast.Name):
+                recv = astq.expr_at(m, n, recv)         # a local name for one of the lists (chosen by the dialog variant)
+            if self_attr(recv):
+                apps[recv.attr] = n
     if not {"pole_ind", MAIN} <= set(apps):
-        run.ob("R-pick", m.qual, "appends", False, "pick does not append to both lists", witness="missing", file=f, node=m.node)
+        # entries may be put in by a helper of the dialog (sorted insertion): not read here
+        helper = any(isinstance(n, ast.Call) and self_attr(n.func) and n.func.attr.startswith("_") for n in ast.walk(m.node))
+        run.ob("R-pick", m.qual, "appends", None if helper else False, "pick does not append to both lists" + (" itself (a helper of the dialog is called: not followed)" if helper else ""),
+               witness="missing", file=f, node=m.node)
         return
-    yv = astq.uncoerce(astq.expr_at(m, apps["pole_ind"], apps["pole_ind"].args[0]))
-    fv = astq.uncoerce(astq.expr_at(m, apps[MAIN], apps[MAIN].args[0]))
+    yv = astq.uncoerce(astq.expr_at(m, apps["pole_ind"], apps["pole_ind"].args[-1]))
+    fv = astq.uncoerce(astq.expr_at(m, apps[MAIN], apps[MAIN].args[-1]))
     # order index = argmin |arange(n_orders) - y|
     inner = yv
     if isinstance(inner, ast.Call) and astq.callee_name(prog, m, inner) == "int":
@@ -459,6 +469,51 @@ def pick(prog, run, ci, f):
             elif arr is not None or astq.argreduce(prog, h, inner, astq.ARGMAX) is not None:
                 ok = False
             run.ob("R-pick", h.qual, "deselect-nearest removes the entry nearest in frequency to the click", ok, f"index `{astq.src(iv, 80)}`", witness=astq.src(iv, 80), file=f, node=pnode)
+
+
+def click_position(prog, run, ci, f):
+    """attributes that hold the position of a click (assigned from event.xdata / event.ydata somewhere in the dialog) are read by a
+    handler - directly, or in a helper of the dialog it calls - only after THIS event's position was stored into them on the way"""
+    cp = set()
+    for m in ci.methods.values():
+        for a in ast.walk(m.node):
+            if isinstance(a, ast.Assign) and any(isinstance(x, ast.Attribute) and x.attr in ("xdata", "ydata") for x in ast.walk(a.value)):
+                for t in a.targets:
+                    if self_attr(t):
+                        cp.add(t.attr)
+    if not cp:
+        return
+    readers = {}            # method -> click attributes it reads (directly or through helpers on self)
+    for nm, m in ci.methods.items():
+        readers[nm] = {x.attr for x in ast.walk(m.node) if self_attr(x) and isinstance(x.ctx, ast.Load) and x.attr in cp}
+    changed = True
+    while changed:
+        changed = False
+        for nm, m in ci.methods.items():
+            for c in ast.walk(m.node):
+                if isinstance(c, ast.Call) and self_attr(c.func) and c.func.attr in readers and readers[c.func.attr] - readers[nm]:
+                    readers[nm] |= readers[c.func.attr]
+                    changed = True
+    n = 0
+    for hname in ("on_click_SSI", "on_click_FDD"):
+        h = ci.methods.get(hname)
+        if h is None:
+            continue
+        sites = []
+        for x in ast.walk(h.node):
+            if self_attr(x) and isinstance(x.ctx, ast.Load) and x.attr in cp:
+                sites.append((x, {x.attr}))
+            elif isinstance(x, ast.Call) and self_attr(x.func) and readers.get(x.func.attr):
+                sites.append((x, readers[x.func.attr]))
+        for node, attrs in sites:
+            for a in sorted(attrs):
+                kind, val = astq.dominating_attr_store(h, node, "self." + a)
+                ok = True if (kind == "value" and any(isinstance(y, ast.Attribute) and y.attr in ("xdata", "ydata") for y in ast.walk(val))) else (False if kind == "none" else None)
+                n += 1
+                run.ob("R-pick", h.qual, f"self.{a} read here is this click's position", ok,
+                       f"`{astq.src(node, 50)}` reads self.{a}" + ("" if ok else (": no store of this event's position precedes it on this path - it still holds the position of an earlier click"
+                                                                              if ok is False else ": a store of the position sits in another branch / loop")),
+                       witness=f"self.{a}:{kind}", file=f, node=node)
 
 
 def handover(prog, run, ci, f):
